@@ -99,9 +99,11 @@ func (m *defaultVarMocker) doSet(value interface{}) {
 		m.mockValue = value
 		return
 	}
-	m.originSaved = true
-	m.originValue = m.targetValue.Elem().Interface()
+	origin := m.targetValue.Elem().Interface()
 	d := reflect.ValueOf(value)
 	m.targetValue.Elem().Set(d)
+	// 只有成功写入之后才算发生过 mock (类型不匹配时 Set 会 panic, 此时不应记录原值)
+	m.originSaved = true
+	m.originValue = origin
 	m.mockValue = value
 }
